@@ -75,6 +75,8 @@ def finder(c, fbin):
             c.oracle("OracleFinder", p, "OracleFinder_" + name, lambda e: "finder text=%r matches=%s" % ("".join(chr(u) for u in e["s"]), e["m"]), timeout=3000, xmx="16g")
         if os.path.exists(p):
             os.remove(p)
+    r = c.tlc("QFinder", "QFinder_live", timeout=900, workers=8)
+    c.expect_holds(r, "QFinder: CallReturns (every call of Next() returns, under weak fairness)")
     p = os.path.join(c.out, "finder_random.ndjson")
     rc, out, err = c.run([fbin, "random", str(c.seed), "400000" if c.thorough else "40000", p], timeout=1500)
     if c.harness_ok("finder-random", rc, out, err):
